@@ -155,6 +155,11 @@ Inductive astep (a : ast) : ast -> Prop :=
     a_pc a = LScan -> a_q a = h :: r -> pending (a_hs a h) = false -> after_scan r p ->
     astep a (mkA (hupd (a_hs a) h (set_pending false)) (a_snd a) (a_lst a ++ [h]) (a_efd a)
                  p r (a_incb a) (a_cl a))
+| AL_ack h r p :
+    a_pc a = LScan -> a_q a = h :: r -> pending (a_hs a h) = true ->
+    has_cb (a_hs a h) = false -> after_scan r p ->
+    astep a (mkA (hupd (a_hs a) h ack) (a_snd a) (a_lst a ++ [h]) (a_efd a)
+                 p r (a_incb a) (a_cl a))
 | AL_call h :
     a_pc a = LCall h ->
     astep a (mkA (hupd (a_hs a) h run_cb) (a_snd a) (a_lst a) (a_efd a) LInCb (a_q a) (a_incb a) (a_cl a))
@@ -287,6 +292,9 @@ Proof.
   - simp. apply (AL_hit (view s) n l); auto.
   - match goal with |- astep _ (view (scan_next true ?x)) =>
       destruct (scan_next_view x) as (p & Hp & Hv); rewrite Hv end.
+    simp. simp_in Hp. apply (AL_ack (view s) n l p); auto.
+  - match goal with |- astep _ (view (scan_next true ?x)) =>
+      destruct (scan_next_view x) as (p & Hp & Hv); rewrite Hv end.
     simp. simp_in Hp. apply (AL_miss (view s) n l p); auto.
   - simp. apply (AL_call (view s) h); auto.
   - destruct (scan_next_view s) as (p & Hp & Hv). rewrite Hv. pcmove. constructor; auto.
@@ -386,7 +394,7 @@ Proof.
 Qed.
 
 Ltac hsimp := cbn [hst pending busy unl published seen sends_begun cb_count
-                   publish add_busy set_pending set_unl run_cb begin_close is_open] in *.
+                   publish add_busy set_pending set_unl run_cb begin_close ack has_cb is_open] in *.
 Ltac hupd_cases := unfold aopn in *; acbn; unfold hupd in *; cbn beta in *; eqb_cases; hsimp.
 
 Lemma scan_head_open a h r : AInv a -> a_pc a = LScan -> a_q a = h :: r -> hst (a_hs a h) = Open.
@@ -403,6 +411,7 @@ Proof.
   destruct St; acbn; try exact Hb; hupd_cases; auto.
   - intros Hn. exfalso. apply Hn. eapply scan_head_open; eauto.
   - intros Hn. exfalso. apply Hn. eapply scan_head_open; eauto.
+  - intros Hn. exfalso. apply Hn. eapply scan_head_open; eauto.
 Qed.
 
 Lemma pres_olink a a' : AInv a -> astep a a' -> forall h, aopn a' h -> In h (a_lst a') \/ In h (a_q a').
@@ -411,6 +420,9 @@ Proof.
   destruct St; acbn; try exact Hb; hupd_cases; auto.
   - intros Ho. right. destruct (Hb Ho) as [Hl|Hq]; auto.
     rewrite (i_q0 _ I) in Hq by (unfold aoutside; rewrite H; reflexivity). destruct Hq.
+  - intros _. left. apply in_or_app. right. left. reflexivity.
+  - intros Ho. destruct (Hb Ho) as [Hl|Hq]; [left; apply in_or_app; auto|].
+    rewrite H0 in Hq. destruct Hq; [congruence|auto].
   - intros _. left. apply in_or_app. right. left. reflexivity.
   - intros Ho. destruct (Hb Ho) as [Hl|Hq]; [left; apply in_or_app; auto|].
     rewrite H0 in Hq. destruct Hq; [congruence|auto].
@@ -431,6 +443,7 @@ Proof.
   - destruct H0 as [[Hq _]|[_ ->]]; [auto|discriminate].
   - discriminate.
   - destruct H2 as [[Hq _]|[_ ->]]; [auto|discriminate].
+  - destruct H3 as [[Hq _]|[_ ->]]; [auto|discriminate].
   - discriminate.
   - destruct H as [[Hp ->]|[Hp ->]]; [|discriminate]. intros _. apply Hb. rewrite Hp. reflexivity.
   - destruct (a_incb a) eqn:Ei; [discriminate|]. intros _.
@@ -445,6 +458,10 @@ Proof.
   - intros Hin; destruct (Hb Hin) as [Ho|[Hs|Hs]]; auto; inversion H; subst; try congruence;
       try (right; right; congruence).
   - intros [[]|Hin]. destruct (Hb (or_introl Hin)) as [Ho|[Hs|Hs]]; auto; congruence.
+  - intros _. left. eapply scan_head_open; eauto.
+  - intros Hin. assert (Hin' : In k (a_lst a) \/ In k (a_q a)).
+    { rewrite H0. destruct Hin as [Hin|Hin]; [apply in_app_or in Hin; destruct Hin as [|[|[]]]; auto; congruence|right; right; auto]. }
+    destruct (Hb Hin') as [Ho|[Hs|Hs]]; auto; congruence.
   - intros _. left. eapply scan_head_open; eauto.
   - intros Hin. assert (Hin' : In k (a_lst a) \/ In k (a_q a)).
     { rewrite H0. destruct Hin as [Hin|Hin]; [apply in_app_or in Hin; destruct Hin as [|[|[]]]; auto; congruence|right; right; auto]. }
@@ -485,6 +502,8 @@ Proof.
   - congruence.
   - intros Hp. exfalso. eapply after_scan_not_call; eauto.
   - intros Hp. exfalso. eapply after_scan_not_call; eauto.
+  - intros Hp. exfalso. eapply after_scan_not_call; eauto.
+  - intros Hp. exfalso. eapply after_scan_not_call; eauto.
   - destruct (a_incb a); discriminate.
   - destruct (a_incb a); discriminate.
 Qed.
@@ -502,6 +521,8 @@ Proof.
   - intros Hp. nospin k.
   - intros [|]; discriminate.
   - intros [|]; discriminate.
+  - intros Hp. nospin h.
+  - intros Hp. nospin k.
   - intros Hp. nospin h.
   - intros Hp. nospin k.
   - intros [|]; discriminate.
@@ -665,35 +686,35 @@ Lemma cnt_idle P scripts : (forall sc, P (mkS SIdle sc) = false) ->
   cnt P (map (mkS SIdle) scripts) = 0.
 Proof. intros H. induction scripts as [|x r IH]; simpl; [reflexivity|]. rewrite H, IH. reflexivity. Qed.
 
-Lemma hinit_spec n k :
-  (k < n)%nat /\ hinit n k = fresh_handle \/ (n <= k)%nat /\ hinit n k = no_handle.
+Lemma hinit_spec cbf n k :
+  (k < n)%nat /\ hinit cbf n k = fresh_handle (cbf k) \/ (n <= k)%nat /\ hinit cbf n k = no_handle.
 Proof.
   unfold hinit. destruct (Nat.ltb_spec k n); [left|right]; auto.
 Qed.
 
-Lemma init_inv n e0 ls beh scripts : 0 <= e0 -> AInv (view (init n e0 ls beh scripts)).
+Lemma init_inv cbf n e0 ls beh scripts : 0 <= e0 -> AInv (view (init cbf n e0 ls beh scripts)).
 Proof.
   intros He. unfold init, view. cbn [hs snd lp lst efd l_pc l_queue l_incb].
   constructor; cbn [a_hs a_snd a_lst a_efd a_pc a_q a_incb]; unfold aopn, aspin;
     cbn [a_hs a_snd a_lst a_efd a_pc a_q a_incb]; auto.
   - intros h. rewrite cnt_idle by reflexivity.
-    destruct (hinit_spec (S n) h) as [[_ ->]|[_ ->]]; reflexivity.
-  - intros h. destruct (hinit_spec (S n) h) as [[_ ->]|[_ ->]]; cbn; [congruence|auto].
-  - intros h. destruct (hinit_spec (S n) h) as [[Hl ->]|[_ ->]]; cbn; [|discriminate].
+    destruct (hinit_spec cbf (S n) h) as [[_ ->]|[_ ->]]; reflexivity.
+  - intros h. destruct (hinit_spec cbf (S n) h) as [[_ ->]|[_ ->]]; cbn; [congruence|auto].
+  - intros h. destruct (hinit_spec cbf (S n) h) as [[Hl ->]|[_ ->]]; cbn; [|discriminate].
     intros _. left. destruct (Nat.eq_dec h n); [left; auto|right; apply in_seq; lia].
   - intros h [[->|Hin]|[]].
-    + left. destruct (hinit_spec (S h) h) as [[_ ->]|[Hl _]]; [reflexivity|lia].
-    + left. apply in_seq in Hin. destruct (hinit_spec (S n) h) as [[_ ->]|[Hl _]]; [reflexivity|lia].
+    + left. destruct (hinit_spec cbf (S h) h) as [[_ ->]|[Hl _]]; [reflexivity|lia].
+    + left. apply in_seq in Hin. destruct (hinit_spec cbf (S n) h) as [[_ ->]|[Hl _]]; [reflexivity|lia].
   - discriminate.
   - intros h [|]; discriminate.
   - intros h. rewrite cnt_idle by reflexivity.
-    destruct (hinit_spec (S n) h) as [[_ ->]|[_ ->]]; cbn; [discriminate|].
+    destruct (hinit_spec cbf (S n) h) as [[_ ->]|[_ ->]]; cbn; [discriminate|].
     intros _. split; [discriminate|reflexivity].
-  - intros h. destruct (hinit_spec (S n) h) as [[_ ->]|[_ ->]]; cbn; lia.
-  - intros h. destruct (hinit_spec (S n) h) as [[_ ->]|[_ ->]]; cbn; [discriminate|discriminate].
-  - intros h. destruct (hinit_spec (S n) h) as [[_ ->]|[_ ->]]; cbn; lia.
+  - intros h. destruct (hinit_spec cbf (S n) h) as [[_ ->]|[_ ->]]; cbn; lia.
+  - intros h. destruct (hinit_spec cbf (S n) h) as [[_ ->]|[_ ->]]; cbn; [discriminate|discriminate].
+  - intros h. destruct (hinit_spec cbf (S n) h) as [[_ ->]|[_ ->]]; cbn; lia.
   - intros h. rewrite cnt_idle by reflexivity.
-    destruct (hinit_spec (S n) h) as [[_ ->]|[_ ->]]; cbn; lia.
+    destruct (hinit_spec cbf (S n) h) as [[_ ->]|[_ ->]]; cbn; lia.
 Qed.
 
 Definition Inv (s : state) : Prop := AInv (view s).
@@ -710,8 +731,8 @@ Proof.
     eapply IH; [|exact Hrun]. eapply reach_step; eauto.
 Qed.
 
-Lemma reachable_inv n e0 ls beh scripts s :
-  0 <= e0 -> reachable (init n e0 ls beh scripts) s -> Inv s.
+Lemma reachable_inv cbf n e0 ls beh scripts s :
+  0 <= e0 -> reachable (init cbf n e0 ls beh scripts) s -> Inv s.
 Proof.
   intros He Hr. induction Hr.
   - apply init_inv; auto.
@@ -883,9 +904,10 @@ Qed.
 (* Witnesses                                                                *)
 (* ---------------------------------------------------------------------- *)
 Definition nobeh : nat -> list cbop := fun _ => [].
+Definition allcb : nat -> bool := fun _ => true.
 
 (* one handle, one sender sending twice, uv_run(DEFAULT) *)
-Definition w_init : state := init 1 0 [OpRun true] nobeh [[0%nat; 0%nat]].
+Definition w_init : state := init allcb 1 0 [OpRun true] nobeh [[0%nat; 0%nat]].
 Definition w_sched : list nat :=
   [1; 1; 1; 1; 1; 1;      (* first send: publish, load, busy++, exchange, write, busy-- *)
    0; 0; 0; 0; 0; 0;      (* loop: uv_run -> poll; poll; (drain | scan wq_async); ...; callback; return *)
@@ -937,7 +959,7 @@ Qed.
 (* A sender that loaded pending = 0 before uv_close stored 1 can be delayed past
    uv_close and past close_cb; it then still increments and decrements busy in the
    handle's memory (it does not write the eventfd and causes no callback). *)
-Definition l_init : state := init 1 0 [OpClose 0%nat; OpRun false] nobeh [[0%nat]].
+Definition l_init : state := init allcb 1 0 [OpClose 0%nat; OpRun false] nobeh [[0%nat]].
 Definition l_sched : list nat := [1; 1; 0; 0; 0; 0; 1]%nat.
 
 Lemma late_sender_touches_closed_handle :
@@ -1078,7 +1100,7 @@ Qed.
 
 (* the variant in which the child keeps the parent's eventfd: the parent's loop consumes
    the child's wake-up *)
-Definition f_par : state := init 1 0 [OpNowait] nobeh [].
+Definition f_par : state := init allcb 1 0 [OpNowait] nobeh [].
 Definition f_sched : list (bool * nat) :=
   [(true, 1); (true, 1); (true, 1); (true, 1); (true, 1); (true, 1);   (* a send in the child *)
    (false, 0); (false, 0); (false, 0); (false, 0); (false, 0);         (* the parent runs its loop *)
@@ -1126,7 +1148,7 @@ Qed.
 (* two handles, a send outstanding on both when the loop wakes, the first callback calls
    uv_stop(), then uv_run(DEFAULT) is called again *)
 Definition sb_beh : nat -> list cbop := fun k => match k with O => [CbStop] | _ => [] end.
-Definition sb_init : state := init 2 0 [OpRun true; OpRun true] sb_beh [[0%nat]; [1%nat]].
+Definition sb_init : state := init allcb 2 0 [OpRun true; OpRun true] sb_beh [[0%nat]; [1%nat]].
 Definition sb_sched : list nat :=
   [1; 1; 1; 1; 1; 1;  2; 2; 2; 2; 2; 2;     (* both sends complete *)
    0; 0; 0; 0; 0; 0; 0;                     (* uv_run: poll, drain, scan wq_async, scan h0, callback, uv_stop *)
